@@ -187,3 +187,138 @@ def sided_slices(ctx: Ctx) -> None:
                 (ctx.ok if good else ctx.bad)(R, f, a, f'{want}' if good else
                                               f'with {flag}={d} the edge slice is `slice({lo[:50]}, {hi[:50]})`, expected {want}: cells outside the missing run at that edge are filled (or the run is cut short)', key=key)
     ctx.require(n >= 8, 'edge slice definitions')
+
+
+# ---------------------------------------------------------------------------------------
+# finite case analysis over dtype kinds
+
+ALL_KINDS = ('b', 'i', 'u', 'f', 'c', 'm', 'M', 'O', 'S', 'U', 'V')
+NULLABLE_KINDS = ('f', 'c', 'm', 'M', 'O')      # the kinds for which isna_array can answer True
+MISSING_PREDICATES = ('isna_array', 'np.isnan', 'np.isnat', 'isna_element', 'np.not_equal')
+
+
+def _const_table(prog) -> tp.Dict[str, tp.Any]:
+    '''Module-level str / tuple-of-str constants of util (DTYPE_*_KINDS and friends), resolved transitively.'''
+    util = [m for m in prog.modules.values() if m.short == 'util'][0]
+    table: tp.Dict[str, tp.Any] = {}
+    for _ in range(3):
+        for a in util.tree.body:
+            if isinstance(a, ast.Assign) and len(a.targets) == 1 and isinstance(a.targets[0], ast.Name):
+                v = _const_eval(a.value, table)
+                if v is not None:
+                    table[a.targets[0].id] = v
+    return table
+
+
+def _const_eval(e: ast.expr, table: tp.Mapping[str, tp.Any]) -> tp.Any:
+    if isinstance(e, ast.Constant) and isinstance(e.value, str):
+        return e.value
+    if isinstance(e, ast.Name) and e.id in table:
+        return table[e.id]
+    if isinstance(e, (ast.Tuple, ast.List, ast.Set)):
+        out = []
+        for x in e.elts:
+            v = _const_eval(x, table)
+            if v is None:
+                return None
+            out += list(v) if isinstance(v, (tuple, frozenset)) and isinstance(x, ast.Starred) else [v]
+        flat = []
+        for v in out:
+            flat += list(v) if isinstance(v, (tuple, frozenset)) else [v]
+        return tuple(flat)
+    if isinstance(e, ast.Call) and isinstance(e.func, ast.Name) and e.func.id == 'frozenset' and len(e.args) == 1:
+        v = _const_eval(e.args[0], table)
+        return tuple(v) if v is not None else None
+    if isinstance(e, ast.BinOp) and isinstance(e.op, ast.Add):
+        a, b = _const_eval(e.left, table), _const_eval(e.right, table)
+        if isinstance(a, tuple) and isinstance(b, tuple):
+            return a + b
+    return None
+
+
+def _eval_kind_test(t: ast.expr, kind_names: tp.Set[str], k: str, table: tp.Mapping[str, tp.Any]) -> tp.Optional[bool]:
+    '''Truth of a test for the concrete dtype kind k; None when the test is not (only) about the kind.'''
+    def is_kind(e: ast.expr) -> bool:
+        return (isinstance(e, ast.Name) and e.id in kind_names) or (isinstance(e, ast.Attribute) and e.attr == 'kind' and isinstance(e.value, ast.Attribute) and e.value.attr == 'dtype')
+    if isinstance(t, ast.BoolOp):
+        vals = [_eval_kind_test(v, kind_names, k, table) for v in t.values]
+        if isinstance(t.op, ast.And):
+            if any(v is False for v in vals):
+                return False
+            return True if all(v is True for v in vals) else None
+        if any(v is True for v in vals):
+            return True
+        return False if all(v is False for v in vals) else None
+    if isinstance(t, ast.UnaryOp) and isinstance(t.op, ast.Not):
+        v = _eval_kind_test(t.operand, kind_names, k, table)
+        return None if v is None else not v
+    if isinstance(t, ast.Compare) and len(t.ops) == 1 and is_kind(t.left):
+        rhs = _const_eval(t.comparators[0], table)
+        if rhs is None:
+            return None
+        op = t.ops[0]
+        if isinstance(op, ast.In):
+            return k in rhs
+        if isinstance(op, ast.NotIn):
+            return k not in rhs
+        if isinstance(op, ast.Eq):
+            return k == rhs
+        if isinstance(op, ast.NotEq):
+            return k != rhs
+    return None
+
+
+def nullable_kinds(ctx: Ctx) -> None:
+    R = 'I.nullable-kinds-consult-missing'
+    ctx.rule(R, 'finite case analysis over the eleven NumPy dtype kinds: in isna_array, _ufunc_logical_skipna and the arg-extreme helpers, for each kind that can hold a '
+             'missing value (float, complex, datetime64, timedelta64, object) no normal return is reachable before a missing-value predicate (isna_array / np.isnan / '
+             'np.isnat / x != x) has been consulted — a kind-gated shortcut "this array cannot hold NaN" must not cover NaT or None', floor=12)
+    from sfa import flow
+    prog = ctx.prog
+    table = _const_table(prog)
+    ctx.require(table.get('DTYPE_INEXACT_KINDS') is not None and table.get('DTYPE_NAT_KINDS') is not None, 'dtype-kind constant tables of util')
+    n = 0
+    for qual in ('util.isna_array', 'util._ufunc_logical_skipna', 'util._argminmax_1d', 'util._argminmax_2d'):
+        f = prog.func(qual)
+        kind_names = set(roles.assigned_from_all(f.node, lambda v: isinstance(v, ast.Attribute) and v.attr == 'kind'))
+        for k in NULLABLE_KINDS:
+
+            class C(flow.Client):
+                def __init__(self):
+                    self.bad: tp.List[ast.AST] = []
+
+                def join(self, a, b):
+                    return a and b          # consulted on every path
+
+                def refine(self, atom, st, truth):
+                    v = _eval_kind_test(atom, kind_names, k, table)
+                    if v is not None and v != truth:
+                        return None
+                    # an empty array holds no missing value: nothing to consult on that branch
+                    if truth and isinstance(atom, ast.Compare) and len(atom.ops) == 1 and isinstance(atom.ops[0], ast.Eq) and norm(atom.comparators[0]) == '0' \
+                            and (call_name(atom.left) == 'len' if isinstance(atom.left, ast.Call) else norm(atom.left).endswith('.size')):
+                        return True
+                    return st
+
+                def on_expr(self, node, st):
+                    if isinstance(node, ast.Call) and call_name(node) in MISSING_PREDICATES:
+                        return True
+                    if isinstance(node, ast.Compare) and len(node.ops) == 1 and isinstance(node.ops[0], ast.NotEq) and norm(node.left) == norm(node.comparators[0]):
+                        return True
+                    if isinstance(node, ast.Compare) and any(isinstance(c_, ast.Constant) and c_.value is None for c_ in node.comparators):
+                        return True
+                    return st
+
+                def on_return(self, s, st):
+                    if not st:
+                        self.bad.append(s)
+            c = C()
+            flow.Engine(c).run(f.node.body, False)
+            n += 1
+            key = f'{f.name}:kind={k}'
+            if c.bad:
+                ctx.bad(R, f, c.bad[0], f'for dtype kind {k!r} (which can hold a missing value) `{norm(c.bad[0])[:60]}` is reached without any missing-value predicate having been '
+                        'consulted: NaT / None / NaN in such an array is treated as an ordinary value', key=key)
+            else:
+                ctx.ok(R, f, f.node, f'kind {k!r}: every return follows a missing-value predicate', key=key)
+    ctx.require(n >= 12, 'kind cases')
